@@ -574,6 +574,8 @@ def part_a(ctx, patterns):
         mark({**case, 'method': 'kernel-rs'}, 'kernel rs_cf_splitting')
         amg_core.rs_cf_splitting(n, Sp, Sj, Tp, Tj, np.zeros(n, dtype=np.int32), x)
         add('rs ' + hst, enc_ints(x), 'rs_cf_splitting')
+        # the checked whole-kernel model (Model/ExtRsCk.lean; theorems rs_kernel_call_safe / kernel_rs_whole_safe): same value, flag set
+        add('ext_rs_whole ' + hst, enc_ints(x) + ';ok', 'rs_cf_splitting (checked whole-kernel model RS.runCk)')
         x1 = x.copy()
         if np.isin(x1, (0, 1)).all():
             mark({**case, 'method': 'kernel-pass2', 'x0': x.tolist()}, 'kernel rs_cf_splitting_pass2')
